@@ -13,6 +13,22 @@ use simkit::*;
 use std::sync::{Arc, Mutex};
 use std::time::Duration;
 
+/// This scenario evaluates clauses of several properties in sequence. A failing clause of another property must not end the
+/// evaluation (the running check would drop it and never reach its own clauses): it is recorded and the evaluation goes on.
+macro_rules! ensure {
+    ($cond:expr, $clause:expr, $($arg:tt)*) => {
+        if !($cond) {
+            let v = simkit::Violation { clause: ($clause).to_string(), detail: format!($($arg)*) };
+            if simkit::ctx::clause_is_foreign(&v.clause) {
+                simkit::soft_violation(v);
+            } else {
+                return Err(v);
+            }
+        }
+    };
+}
+
+
 const PROTO: &str = "/ipfs/kad/1.0.0";
 
 const RULE: &str = "A real kad::Behaviour in server mode (record_ttl none or 3..60 s, provider_record_ttl none or some, unfiltered inserts, periodic jobs off) serves 2..3 scripted peers that send PUT_VALUE (publisher absent / the sender / a third peer / the local node; ttl field 0 = none, 1..3, 30, 3600), GET_VALUE and ADD_PROVIDER (announced provider = sender / another peer / the local node) in raw frames, with virtual time steps that leave sub-second lifetimes. After every request the record store is read directly";
@@ -176,6 +192,32 @@ fn kad_inbound() -> SimResult {
                 let now = web_time::Instant::now();
                 tag += 1;
                 clients[c].node.with(|b| b.open(speer, None, OpenReq { tag, proto: PROTO.into(), send: vec![get_value(&key)], read: 1, after: After::Close }));
+                // Sometimes the answer is held up between the behaviour (which looked the record up) and the handler (which
+                // encodes it): the server's connection tasks stall, and the record's remaining lifetime passes meanwhile.
+                let soon = stored_rec.as_ref().and_then(|r| r.expires).map(|e| e.saturating_duration_since(now)).filter(|l| *l > Duration::from_millis(20) && *l < Duration::from_secs(40));
+                if let (Some(left), true) = (soon, choose(2) == 0) {
+                    let seen_before = server.events.borrow().len();
+                    let mut stalled = vec![];
+                    for _ in 0..400 {
+                        run_steps(1);
+                        let looked_up = server.events.borrow().iter().skip(seen_before).any(|(_, _, e)| matches!(e, libp2p_swarm::SwarmEvent::Behaviour(kad::Event::InboundRequest { request: kad::InboundRequest::GetRecord { .. } })));
+                        if looked_up {
+                            let tasks = net::with_net(|n| n.tasks.get(&server.idx).cloned().unwrap_or_default());
+                            for u in tasks.into_iter().filter(|u| !is_done(*u)) {
+                                freeze(u, true);
+                                stalled.push(u);
+                            }
+                            break;
+                        }
+                    }
+                    if !stalled.is_empty() {
+                        advance(left + Duration::from_millis(1500));
+                        for u in stalled {
+                            freeze(u, false);
+                        }
+                        probe("answer-encoded-after-the-record-expired");
+                    }
+                }
                 settle(Duration::from_millis(10));
                 let Some(Ok(frames)) = outcome(&clients[c].shared, tag) else { continue };
                 let Some(f) = frames.first().and_then(|f| pb_parse(f)) else { continue };
